@@ -168,7 +168,15 @@ class Dendrogram(object):
 
         # Default min_val to the minimum in the data
         if min_value == "min":
-            min_value = np.min(data[np.isfinite(data)]) - 1
+            finite_min = np.min(data[np.isfinite(data)])
+            if np.issubdtype(data.dtype, np.integer):
+                # Python integers cannot wrap around
+                min_value = int(finite_min) - 1
+            else:
+                min_value = finite_min - 1
+                if not min_value < finite_min:
+                    # finite_min is so large that subtracting 1 is a no-op
+                    min_value = np.nextafter(finite_min, -np.inf)
 
         self = Dendrogram()
         self.data = data
